@@ -212,3 +212,55 @@ theorem find?_eq_of_forall {α : Type} (p : α → Bool) (L : List α) (a : α)
       · exact ⟨l, hl, hp⟩
 
 end Pharmpy.C16
+
+namespace Pharmpy.C16
+
+/-- The lines `store_annotation` writes. -/
+def annLines (name ann : List Char) (ls : List (List Char)) : List (List Char) :=
+  let ls' := ls.map (fun l => if lineKey l = name then annLine name ann else l)
+  if ls.any (fun l => lineKey l = name) then ls' else ls' ++ [annLine name ann]
+
+theorem storeAnnotationText_lines (name ann : List Char) (ls : List (List Char)) (h : ∀ l ∈ ls, WfLine l) :
+    storeAnnotationText name ann ls.flatten = (annLines name ann ls).flatten := by
+  simp only [storeAnnotationText, annLines, readlines_flatten ls h]
+
+theorem annLines_wf (name ann : List Char) (ls : List (List Char)) (h : ∀ l ∈ ls, WfLine l)
+    (hw : WfLine (annLine name ann)) : ∀ l ∈ annLines name ann ls, WfLine l := by
+  intro l hl
+  simp only [annLines] at hl
+  have hmap : ∀ l ∈ ls.map (fun l => if lineKey l = name then annLine name ann else l), WfLine l := by
+    intro l hl
+    rw [List.mem_map] at hl
+    obtain ⟨l0, hl0, rfl⟩ := hl
+    split
+    · exact hw
+    · exact h l0 hl0
+  split at hl
+  · exact hmap l hl
+  · rcases List.mem_append.mp hl with hl | hl
+    · exact hmap l hl
+    · simp at hl; subst hl; exact hw
+
+
+theorem find?_map_congr {α : Type} (p : α → Bool) (f : α → α) (L : List α)
+    (h : ∀ l ∈ L, p (f l) = p l ∧ (p l = true → f l = l)) : (L.map f).find? p = L.find? p := by
+  induction L with
+  | nil => rfl
+  | cons x xs ih =>
+    have hx := h x List.mem_cons_self
+    have ih' := ih (fun l hl => h l (List.mem_cons_of_mem _ hl))
+    simp only [List.map_cons, List.find?]
+    rw [hx.1]
+    cases hp : p x with
+    | true => simp [hx.2 hp]
+    | false => simpa using ih'
+
+theorem find?_append_false {α : Type} (p : α → Bool) (L : List α) (a : α) (h : p a = false) :
+    (L ++ [a]).find? p = L.find? p := by
+  induction L with
+  | nil => simp [List.find?, h]
+  | cons x xs ih =>
+    simp only [List.cons_append, List.find?]
+    cases p x <;> simp [ih]
+
+end Pharmpy.C16
